@@ -102,6 +102,13 @@ pub(crate) fn mat_vec_mul<const K: usize, const L: usize>(
 ) -> [T; K] {
     let mut w_hat = [T0; K];
     let u_hat_mont = to_mont(u_hat);
+    #[cfg(feature = "verif-hooks")]
+    if crate::verif_hooks::tracing() {
+        let a = crate::verif_hooks::max_abs(a_hat.iter().flat_map(|r| r.iter()).map(|p| &p.0));
+        let u = crate::verif_hooks::max_abs(u_hat.iter().map(|p| &p.0));
+        let m = crate::verif_hooks::max_abs(u_hat_mont.iter().map(|p| &p.0));
+        crate::verif_hooks::emit("mvm_in", [a, u, m, L as i64, 0, 0, 0, 0]);
+    }
     for i in 0..K {
         #[allow(clippy::needless_range_loop)] // clarity
         for j in 0..L {
@@ -109,6 +116,11 @@ pub(crate) fn mat_vec_mul<const K: usize, const L: usize>(
                 *e += mont_reduce(i64::from(a_hat[i][j].0[n]) * i64::from(u_hat_mont[j].0[n]));
             });
         }
+    }
+    #[cfg(feature = "verif-hooks")]
+    if crate::verif_hooks::tracing() {
+        let m = crate::verif_hooks::max_abs(w_hat.iter().map(|p| &p.0));
+        crate::verif_hooks::emit("mvm_out", [m, L as i64, 0, 0, 0, 0, 0, 0]);
     }
     w_hat
 }
